@@ -16,7 +16,7 @@ use crate::refmodel::*;
 use crate::scratch;
 
 pub fn meta(id: &'static str) -> Meta {
-    let common = "references of 1..3 contigs (the FASTA written in one of four layouts per case: one line per contig; lines of 4; lines of 3 with CRLF; one line with CRLF and no final line end) given to the real RefSka::new + map + write_aln/write_vcf (each run in a forked child), samples presented as forged dictionaries so that ANY presence pattern and middle byte can occur. Level A (writer state machine), k=5 and 7: contig lengths from {1, h, k-1, k, k+1, k+2, 2k-1, 2k, 2k+1, 3k} (all single contigs, all ordered pairs, a declared set of triples incl. contigs without k-mers before/between/after others); for each reference EVERY subset of its k-mer centres as 'matched' (references with more than 12 centres: every subset of every window of 10 consecutive centres, rest all-matched or all-unmatched), middle byte cycling through reference base / other base / ambiguity code / N, eight samples per run (one pattern per sample column), both strand modes, mask flags. Level B (reference handling), k=5: every reference over {A,C,G,T,N} up to length 7 (thorough 8) mapped against itself, case variants, every single substitution and every deletion of 1..k letters of a repeat-free reference, reverse-complemented and swapped contigs, planted repeats (same/opposite strand, across contigs, overlapping, behind a contig shorter than k) under all four mask-flag combinations; an IUPAC code (either case) at every position of a reference contig, against samples that carry each of the four bases there with and without an adjacent SNP.";
+    let common = "references of 1..3 contigs (the FASTA written in one of four layouts per case: one line per contig; lines of 4; lines of 3 with CRLF; one line with CRLF and no final line end) given to the real RefSka::new + map + write_aln/write_vcf (each run in a forked child), samples presented as forged dictionaries so that ANY presence pattern and middle byte can occur. Level A (writer state machine), k=5 and 7: contig lengths from {1, h, k-1, k, k+1, k+2, 2k-1, 2k, 2k+1, 3k} (all single contigs, all ordered pairs, a declared set of triples incl. contigs without k-mers before/between/after others); for each reference EVERY subset of its k-mer centres as 'matched' (references with more than 12 centres: every subset of every window of 10 consecutive centres, rest all-matched or all-unmatched), middle byte cycling through reference base / other base / ambiguity code / N, eight samples per run (one pattern per sample column), both strand modes, mask flags. Level B (reference handling), k=5: every reference over {A,C,G,T,N} up to length 7 (thorough 8) mapped against itself, case variants, every single substitution and every deletion of 1..k letters of a repeat-free reference, reverse-complemented and swapped contigs, planted repeats (same/opposite strand, across contigs, overlapping, behind a contig shorter than k) under all four mask-flag combinations; an IUPAC code (either case) at every position of a reference contig, against samples that carry each of the four bases there with and without an adjacent SNP, a sample that holds exactly the code's bases (its stored code equals the reference letter) and one that holds all four, together and alone.";
     if id == "C04" {
         Meta {
             id: "C04",
@@ -571,10 +571,27 @@ pub fn run(ctx: &Ctx, rep: &mut Report, id: &str) {
                         names.push(format!("as{}snp", *x as char));
                         smps.push(vec![b]);
                     }
+                    // samples that hold several alleles at p themselves: the one whose stored code IS the reference letter
+                    // (aligned character equal to the reference: no VCF record on its account), and one holding all four
+                    if let Some(set) = set_of(code.to_ascii_uppercase()) {
+                        let mut same: Vec<Vec<u8>> = b"ACGT".iter().filter(|x| set & set_of(**x).unwrap_or(0) != 0).map(|x| { let mut a = g1.clone(); a[p] = *x; a }).collect();
+                        same.push(g2.clone());
+                        names.push("holds_the_code".to_string());
+                        smps.push(same);
+                        names.push("holds_all_four".to_string());
+                        smps.push(b"ACGT".iter().map(|x| { let mut a = g1.clone(); a[p] = *x; a }).collect());
+                    }
                     for rc in [true, false] {
                         let t = Table::from_samples(k, rc, &names, &smps);
                         for (am, rm) in [(false, false), (true, false), (false, true), (true, true)] {
                             d.run(&MapCase { reference: reference.clone(), table: t.clone(), ambig_mask: am, repeat_mask: rm }, &format!("B: reference letter {} at {p}", *code as char));
+                            // and the code-holding samples alone (no other sample forces a record at p)
+                            if names.len() > 8 {
+                                let t2 = Table::from_samples(k, rc, &names[8..], &smps[8..]);
+                                d.run(&MapCase { reference: reference.clone(), table: t2, ambig_mask: am, repeat_mask: rm }, &format!("B: reference letter {} at {p}, samples holding it", *code as char));
+                                let t3 = Table::from_samples(k, rc, &names[8..9], &smps[8..9]);
+                                d.run(&MapCase { reference: reference.clone(), table: t3, ambig_mask: am, repeat_mask: rm }, &format!("B: reference letter {} at {p}, one sample holding exactly it", *code as char));
+                            }
                         }
                     }
                     d.rep.corner("reference_letter_outside_ACGTN");
